@@ -87,7 +87,15 @@ func (p *parser) advance() *token.Token {
 // returns the current token without advancing
 func (p *parser) peek() *token.Token {
 	if p.cur >= len(p.tokens) {
-		return &token.Token{Type: token.EOF}
+		// token slices of generic function bodies do not end with an EOF token:
+		// the synthetic one is placed at the end of the last token so that
+		// errors reported at it have a range inside the source
+		eof := token.Token{Type: token.EOF}
+		if len(p.tokens) > 0 {
+			end := p.tokens[len(p.tokens)-1].Range.End
+			eof.Range = token.Range{Start: end, End: end}
+		}
+		return &eof
 	}
 	return &p.tokens[p.cur]
 }
